@@ -171,6 +171,9 @@ func (bA *BitArray) Sub(o *BitArray) *BitArray {
 	if bA == nil {
 		return nil
 	}
+	if o == nil {
+		return bA.Copy() // nothing to subtract
+	}
 	bA.mtx.Lock()
 	defer bA.mtx.Unlock()
 	if bA.Bits > o.Bits {
